@@ -9,7 +9,7 @@ verus! {
 //@include shims/writer_std.rs
 //@include shims/encoders.rs
 pub mod spec {
-//@item src/spec.rs | const ZIP64_ENTRY_THR
+//@include common/spec_consts.rs
 }
 //@item src/write.rs | const EXTRA_FIELD_MAPPING
 //@include spec/extra_ok.rs
